@@ -369,13 +369,17 @@ Proof.
     unfold log_close in E. destruct (opened st); [|discriminate]. injection E as <-. cbn [segs opened]. split; [|intros c2 Ec2; discriminate].
     destruct (lvirt st); [constructor|exact HX].
   - (* Publish *)
-    destruct (log_publish H st ms) as [[st' n]|e] eqn:E; cbn [lift fst]; [|split; assumption].
-    destruct HG as [(Ho & _)|[HI|HV]].
-    + unfold log_publish, get_cfg in E. rewrite Ho in E. discriminate.
-    + pose proof HI as (_ & _ & _ & _ & c & Hc & _). pose proof (Hp c Hc) as Hpc.
-      assert (HK : KInv (cparams c) st) by (rewrite Hpc; split; [exact HI|split; assumption]).
-      destruct (log_publish_kinv c st ms st' n HK Hc E) as (_ & HX1 & Hp1). rewrite Hpc in *. split; assumption.
-    + destruct HV as (_ & _ & c & Hc & Hro). unfold log_publish, get_cfg in E. rewrite Hc in E. cbn [bind] in E. rewrite Hro in E. discriminate.
+    assert (Hok : forall ms0 st' n, log_publish H st ms0 = Ok (st', n) ->
+              Forall (idx_exact p) (segs st') /\ (forall c, opened st' = Some c -> cparams c = p)).
+    { intros ms0 st' n E. destruct HG as [(Ho & _)|[HI|HV]].
+      + unfold log_publish, get_cfg in E. rewrite Ho in E. discriminate.
+      + pose proof HI as (_ & _ & _ & _ & c & Hc & _). pose proof (Hp c Hc) as Hpc.
+        assert (HK : KInv (cparams c) st) by (rewrite Hpc; split; [exact HI|split; assumption]).
+        destruct (log_publish_kinv c st ms0 st' n HK Hc E) as (_ & HX1 & Hp1). rewrite Hpc in *. split; assumption.
+      + destruct HV as (_ & _ & c & Hc & Hro). unfold log_publish, get_cfg in E. rewrite Hc in E. cbn [bind] in E. rewrite Hro in E. discriminate. }
+    unfold pub_step. destruct (log_publish H st ms) as [[st' n]|e] eqn:E; cbn [fst]; [exact (Hok ms st' n E)|].
+    destruct e; try (split; assumption).
+    unfold rolled. destruct (log_publish H st []) as [[st0 n0]|e0] eqn:E0; [exact (Hok [] st0 n0 E0)|split; assumption].
   - (* Delete *)
     destruct (log_delete H st offs) as [[st' r]|e] eqn:E; cbn [lift fst]; [|split; assumption].
     destruct HG as [(Ho & _)|[HI|HV]].
